@@ -98,8 +98,13 @@ let cpath_text (p : cpath) : string =
   | [] -> "!."
   | names -> "!" ^ String.concat "/" names
 
+(* A text that ends in a separator must lead to a directory, and a link in last position is then
+   followed even by lstat.  The kernel model ignores a trailing separator (right for the operations
+   generated with one: Directory::create / unlink / exists); for the probe the rule is applied here. *)
 let probe st follow path =
-  match resolve st follow path with
+  let trailing = (match List.rev path with c :: _ :: _ -> int_of_z c = 47 | _ -> false) in
+  match resolve st (follow || trailing) path with
+  | WAt (d, nm, Some SFile) when trailing -> "-"
   | WAt (d, nm, Some _) -> cpath_text (d @ [nm])
   | WDir (d, _) -> cpath_text d
   | _ -> "-"
